@@ -43,6 +43,9 @@ R_IDX, T_IDX, SP_IDX, PC_IDX = 15, 25, 12, 24
 F_PAUSE = 'C13-pause-changes-tape-position-when-loader-is-not-sampling-at-block-start'
 F_ROMSTOP = 'C13-no-start-fast-load-0-stops-inside-rom-loader-at-tape-end'
 F_NEGEDGE = 'C13-negative-first-edge-rejected-by-c-simulator-only'
+F_DECZERO = 'C13-countdown-accelerator-entered-with-counter-0'
+F_RETZ = 'C13-alkatraz-accelerator-skips-ret-z-taken-after-counter-overflow'
+ALKATRAZ_WILD = ('alkatraz', 'alkatraz-05', 'alkatraz-09', 'alkatraz-0a', 'alkatraz-0b')
 
 def plan(tier, seed):
     n = 16
@@ -144,6 +147,8 @@ def make_custom(rng, loader, tier, force=None):
     use_start = rng.random() < 0.6
     org = rng.choice((0x8000, 0x9000, 0xA123, 0xB400, 0xFD00 - 0x400))
     n_max = 60 if tier == 'quick' else 300
+    init_ctr = True if loader == 'software-projects' else rng.random() < 0.5
+    init_ctr = force.get('init_ctr', init_ctr)
     fill = force.get('fill', fill)
     nblocks = force.get('nblocks', nblocks)
     polarity = force.get('polarity', polarity)
@@ -155,9 +160,9 @@ def make_custom(rng, loader, tier, force=None):
         n = rng.choice((1, 2, 17, n_max // 2, n_max, rng.randrange(1, n_max + 1)))
         blocks.append({'dest': dest, 'data': rand_bytes(rng, n), 'flag': rng.choice((0xFF, 0xFF, 0x00, 0x5A)), 'npilot': rng.choice((900, 1200, 1601))})
         dest += n + rng.choice((0, 1, 256))
-    prog = g.build_program(loader, org, rng, blocks, fill=fill, delay_kind=delay_kind, swap=swap, ending=ending)
-    prefix_pause = rng.choice((1000, 1000, 300, 2000))
-    block_pauses = [rng.choice((0, 0, 100, 1000, 3000)) for _ in blocks]
+    prog = g.build_program(loader, org, rng, blocks, fill=fill, delay_kind=delay_kind, swap=swap, ending=ending, init_ctr=init_ctr)
+    prefix_pause = rng.choice((1000, 300, 300, 100))
+    block_pauses = [rng.choice((0, 0, 100, 1000)) for _ in blocks]
     jitter = rng.choice((0, 0, 0, -3, 5))
     harness.write_file('prog.bin', prog['code'])
     r = harness.run_tool('bin2tap', ['-o', str(org), 'prog.bin', 'prog.tap'])
@@ -165,15 +170,12 @@ def make_custom(rng, loader, tier, force=None):
         return {'error': 'bin2tap failed: ' + r.describe()}
     tzx = g.custom_tzx(harness.read_file('prog.tap'), prog, blocks, rng, container=container, prefix_pause=prefix_pause,
                        block_pauses=block_pauses, tape_pol=polarity, jitter=jitter)
-    if rng.random() < 0.3:
-        # a trailing tone so that the tape outlasts the load
-        tzx += g.tzx_pause(rng.choice((50, 400))) + g.tzx_tone(rng.choice((600, 2168)), rng.choice((3, 40)))
     regions = [(org, prog['code'])] + [(b['dest'], bytes(b['data'])) for b in blocks]
     extra = ['-c', 'in-flags=4'] if loader == 'activision' else []
     return {'kind': 'custom', 'loader': loader, 'skeleton': kind, 'accs': list(accs), 'named': ','.join(accs), 'tape': tzx, 'ext': 'tzx',
             'polarity': polarity, 'first_edge': first_edge, 'start': prog['fin'] if use_start else None, 'regions': regions, 'extra': extra,
             'timeout': 90, 'desc': {'loader': loader, 'fill': fill, 'delay': delay_kind, 'blocks': [len(b['data']) for b in blocks], 'container': container,
-                                    'polarity': polarity, 'first_edge': first_edge, 'swap': swap, 'ending': ending, 'start': use_start, 'org': org,
+                                    'polarity': polarity, 'first_edge': first_edge, 'swap': swap, 'init_ctr': init_ctr, 'ending': ending, 'start': use_start, 'org': org,
                                     'prefix_pause': prefix_pause, 'block_pauses': block_pauses, 'jitter': jitter}}
 
 def make_bin2tap(rng, tier, force=None):
@@ -335,6 +337,51 @@ def weak_diff(tape, a, b):
         d.append('SP(%d|%d)' % (a['regs'][SP_IDX], b['regs'][SP_IDX]))
     return d
 
+def run_cfg_child(tape, c, fmt):
+    """Same as run_cfg, but in a separate interpreter, so that a crash of the C code is observed instead of suffered."""
+    import json
+    import subprocess
+    from vk import paths
+    argv = cfg_argv(tape, c) + ['tape.' + tape['ext'], 'oc.' + fmt]
+    with open('child_in.json', 'w') as f:
+        json.dump({'argv': argv}, f)
+    if os.path.exists('child_out.json'):
+        os.remove('child_out.json')
+    try:
+        p = subprocess.run([paths.PYTHON, '-m', 'vk.props.c13', 'child', 'child_in.json', 'child_out.json'], cwd=os.getcwd(), capture_output=True, text=True, timeout=600)
+    except subprocess.TimeoutExpired:
+        return {'watchdog': True, 'argv': argv}
+    if p.returncode < 0 or not os.path.exists('child_out.json'):
+        return {'crashed': p.returncode, 'stderr': (p.stderr or '')[-600:], 'argv': argv}
+    with open('child_out.json') as f:
+        j = json.load(f)
+    res = {'argv': argv, 'run': harness.ToolResult(j['out'], j['err'], j['code'], j['exc'], None), 'regs': j['regs'], 'ram': harness.unb64(j['ram']) if j['ram'] else None,
+           'sregs': j['sregs'], 'sstate': j['sstate'], 'events': [tuple(e) for e in j['events']], 'simcls': j['simcls'], 'captures': 1 if j['regs'] else 0, 'stop': None}
+    res['ok'] = res['run'].ok
+    res['file'] = harness.read_file('oc.' + fmt) if os.path.exists('oc.' + fmt) else None
+    m = re.search(r'Simulation stopped \(([^)]*)\)', j['out'].replace('\x08', ''))
+    res['stop'] = m.group(1) if m else None
+    ram = res['ram']
+    res['loaded'] = bool(ram is not None and res['ok'] and all(ram[a - 0x4000:a - 0x4000 + len(d)] == d for a, d in tape['regions']))
+    return res
+
+def child_main(argv):
+    import json
+    from vk import boot
+    boot.init(flavour='plain', use_c=True, scratch=False)
+    with open(argv[0]) as f:
+        spec = json.load(f)
+    hooks = Hooks()
+    hooks.install()
+    rec = {'events': []}
+    hooks.rec = rec
+    r = harness.run_tool('tap2sna', spec['argv'])
+    hooks.rec = None
+    with open(argv[1], 'w') as f:
+        json.dump({'out': r.out, 'err': r.err, 'code': r.code, 'exc': r.exc, 'regs': rec.get('regs'), 'ram': harness.b64(rec['ram']) if rec.get('ram') is not None else None,
+                   'sregs': rec.get('sregs'), 'sstate': rec.get('sstate'), 'events': rec['events'], 'simcls': rec.get('simcls')}, f)
+    return 0
+
 # ------------------------------------------------------------------ configuration matrix
 
 def unrelated_name(tape):
@@ -360,23 +407,24 @@ def matrix(tape, rng, tier, asan=False):
                     g1.append(C(acc, d, p, 0, 1, 0))
     g1 += [C('list', 3, 1, 0, 1, 0), C('list', 3, 0, 0, 1, 0)]
     if not asan:
-        py = [C('none', 0, 1, 1, 1, 0), C(tape['named'], 3, 1, 1, 1, 0), C('auto', 3, 0, 1, 1, 0), C('none', 3, 0, 1, 1, 0), C('auto', 0, 1, 1, 1, 0)]
-        extra = 2 if q else 8
-        for _ in range(extra):
+        py = [C('none', 0, 1, 1, 1, 0), C(tape['named'], 3, 1, 1, 1, 0), C('auto', 3, 0, 1, 1, 0)]
+        if not q:
+            py += [C('none', 3, 0, 1, 1, 0), C('auto', 0, 1, 1, 1, 0), C('list', 3, 1, 1, 1, 0)]
+        for _ in range(1 if q else 8):
             c = C(rng.choice(accs + ['list']), rng.randrange(4), rng.randrange(2), 1, 1, 0)
             if c['acc'] == 'list':
                 c['dec_a'] = 3
             py.append(c)
         if tape['kind'] == 'bin2tap':
-            py = py[:3] + py[5:6]             # with fast loading nothing but BASIC is simulated: the Python runs are alike
+            py = py[:2] + py[-1:]             # with fast loading nothing but BASIC is simulated: the Python runs are alike
         g1 += py
     groups.append((('fl1', 'cmio0'), g1))
     # G2: fast-load=0, cmio=0
-    g2 = [C('none', 0, 1, 0, 0, 0), C('auto', 3, 1, 0, 0, 0), C(tape['named'], 3, 0, 0, 0, 0), C('none', 3, 0, 0, 0, 0), C('auto', 0, 0, 0, 0, 0),
+    g2 = [C('none', 0, 1, 0, 0, 0), C('none', 0, 0, 0, 0, 0), C('auto', 3, 1, 0, 0, 0), C(tape['named'], 3, 0, 0, 0, 0), C('none', 3, 0, 0, 0, 0), C('auto', 0, 0, 0, 0, 0),
           C(tape['named'], 1, 1, 0, 0, 0), C('auto', 2, 1, 0, 0, 0), C('list', 3, 1, 0, 0, 0)]
     if not asan:
         small = sum(len(d) for a, d in tape['regions']) <= 400
-        if (not q) or rng.random() < 0.35:
+        if (not q) or rng.random() < 0.2:
             g2.append(C('auto', 3, rng.randrange(2), 1, 0, 0))
         if not q and small:
             g2.append(C(tape['named'], rng.randrange(4), rng.randrange(2), 1, 0, 0))
@@ -389,7 +437,7 @@ def matrix(tape, rng, tier, asan=False):
         g3.append(C('auto', 3, rng.randrange(2), 1, 1, 1))
     groups.append((('fl1', 'cmio1'), g3))
     # G4: fast-load=0, cmio=1
-    g4 = [C('none', 0, 1, 0, 0, 1), C('auto', 3, 0, 0, 0, 1)]
+    g4 = [C('none', 0, 1, 0, 0, 1), C('none', 0, 0, 0, 0, 1), C('auto', 3, 0, 0, 0, 1)]
     groups.append((('fl0', 'cmio1'), g4))
     return groups
 
@@ -473,16 +521,22 @@ def check_tape(shard, hooks, tape, rng, case_key, asan=False, only_groups=None):
                     finding = classify_inclass(tape, ref_c, ref, c, r)
                     shard.violation('%s tape (%s): [%s] and [%s] end differently: %s' % (tape['kind'], tape['desc'], describe_cfg(ref_c), describe_cfg(c), ', '.join(d[:8])),
                                     replay_dict(tape, ref_c, c, d[:8]), finding)
-        # pause=1 reference against pause=0 reference
+        # pause=1 reference against its pause=0 twin (same options otherwise)
         p1 = [(c, r) for c, r in lst if c['pause'] == 1]
-        p0 = [(c, r) for c, r in lst if c['pause'] == 0]
-        if p1 and p0:
-            (c1, r1), (c0, r0) = p1[0], p0[0]
+        twin = None
+        if p1:
+            c1, r1 = p1[0]
+            for c, r in lst:
+                if c['pause'] == 0 and cfg_key(dict(c, pause=1)) == cfg_key(c1):
+                    twin = (c, r)
+                    break
+        if twin:
+            c0, r0 = twin
             shard.inc('monitor:pause_comparisons')
             shard.case((tape_hash, tape['polarity'], tape['first_edge'], tape['start'], 'pause', gk), r1['loaded'] or r0['loaded'])
             d = state_diff(r1, r0)
-            if any(late_first_read(r) for c, r in p0):
-                shard.inc('observed:pause0_runs_group_with_late_first_read')
+            if late_first_read(r0):
+                shard.inc('observed:pause0_runs_with_late_first_read')
             if d:
                 finding = None
                 if confined_to_r_t(r1, r0) and late_first_read(r0) and not late_first_read(r1):
@@ -505,6 +559,10 @@ def check_tape(shard, hooks, tape, rng, case_key, asan=False, only_groups=None):
                 shard.violation('%s tape (%s): [%s] vs [%s]: %s (stop reasons: %s | %s)' % (tape['kind'], tape['desc'], describe_cfg(bc), describe_cfg(c), ', '.join(d),
                                                                                           br['stop'], r['stop']), replay_dict(tape, bc, c, d), finding)
 
+def acc_active(tape, c):
+    """Is an accelerator that matches this tape's sampling loop switched on in configuration c?"""
+    return c['cmio'] == 0 and (c['acc'] in ('auto', 'list') or c['acc'] == tape['named'])
+
 def classify_inclass(tape, ca, ra, cb, rb):
     """Mechanism predicates for in-class differences between two runs with the same pause value."""
     # C simulator refuses a negative first-edge (array('Q') of edge times), the Python simulator accepts it
@@ -512,6 +570,12 @@ def classify_inclass(tape, ca, ra, cb, rb):
         c_run, p_run = (ra, rb) if not ca['python'] else (rb, ra)
         if not c_run['ok'] and p_run['ok'] and "can't convert negative int to unsigned" in (c_run['run'].err + str(c_run['run'].exc)):
             return F_NEGEDGE
+    # alkatraz family, wildcard bytes that fall through (NOPs): when the counter overflows, 'INC B' leaves Z set, the
+    # skipped bytes are executed and the 'RET Z' after 'IN A,($FE): RRA' IS taken; the accelerator, entered at that very
+    # IN, fast-forwards the loop instead. The two runs must differ in whether the loop's accelerator is active.
+    if (tape['kind'] == 'custom' and tape['loader'] in ALKATRAZ_WILD and tape['desc']['fill'] == 'nop'
+            and acc_active(tape, ca) != acc_active(tape, cb) and ra['ok'] and rb['ok']):
+        return F_RETZ
     return None
 
 def classify_cross(tape, ca, ra, cb, rb, d):
@@ -530,66 +594,101 @@ def loader_order(seed):
     k = (seed * 7) % len(names)
     return names[k:] + names[:k]
 
-def witnesses(shard, hooks):
-    """Deterministic witnesses of the recorded mechanisms (run by shard 0 before anything else)."""
-    # 1. alkatraz-09 loop with NOP-filled wildcard bytes: the counter overflow does not leave the loop, the stub keeps
-    #    falling into its wait loop, and the block starts while the loader is not sampling
+def witness(shard, hooks, k):
+    """Deterministic witnesses of the recorded mechanisms (one each for shards 0..3, before anything else)."""
     import random
-    rng = random.Random('C13/witness/pause')
-    tape = make_custom(rng, 'alkatraz-09', 'quick', {'fill': 'nop', 'nblocks': 1, 'polarity': 0, 'first_edge': 0, 'use_start': True})
-    if 'error' not in tape:
-        check_tape(shard, hooks, tape, rng, 'w1', asan=True, only_groups=[('fl1', 'cmio0')])
-    # 2. plain bin2tap tape without --start, fast-load 0 vs 1
-    rng = random.Random('C13/witness/romstop')
-    tape = make_bin2tap(rng, 'quick', {'polarity': 0, 'first_edge': 0, 'use_start': False})
-    if 'error' not in tape:
-        check_tape(shard, hooks, tape, rng, 'w2', asan=True)
-    # 3. negative first-edge
-    rng = random.Random('C13/witness/negedge')
-    tape = make_custom(rng, 'rom', 'quick', {'nblocks': 1, 'polarity': 0, 'first_edge': -2168, 'use_start': True})
-    if 'error' not in tape:
-        check_tape(shard, hooks, tape, rng, 'w3', only_groups=[('fl1', 'cmio0')])
+    if k == 0:
+        # alkatraz-09 loop with NOP-filled wildcard bytes: a counter overflow does not end the search for an edge properly,
+        # the loader drops into its wait loop, and the turbo block begins while the loader is not sampling
+        rng = random.Random('C13/witness/pause')
+        tape = make_custom(rng, 'alkatraz-09', 'quick', {'fill': 'nop', 'nblocks': 1, 'polarity': 0, 'first_edge': 0, 'use_start': True})
+        if 'error' not in tape:
+            check_tape(shard, hooks, tape, rng, 'w0', asan=True, only_groups=[('fl1', 'cmio0')])
+    elif k == 1:
+        # plain bin2tap tape without --start, fast-load 0 vs 1
+        rng = random.Random('C13/witness/romstop')
+        tape = make_bin2tap(rng, 'quick', {'polarity': 0, 'first_edge': 0, 'use_start': False})
+        if 'error' not in tape:
+            check_tape(shard, hooks, tape, rng, 'w1', asan=True)
+    elif k == 2:
+        # negative first-edge
+        rng = random.Random('C13/witness/negedge')
+        tape = make_custom(rng, 'rom', 'quick', {'nblocks': 1, 'polarity': 0, 'first_edge': -2168, 'use_start': True})
+        if 'error' not in tape:
+            check_tape(shard, hooks, tape, rng, 'w2', only_groups=[('fl1', 'cmio0')])
+    elif k == 3:
+        # alkatraz loop with NOP-filled wildcard bytes, two blocks: accelerated vs not
+        rng = random.Random('C13/witness/retz')
+        tape = make_custom(rng, 'alkatraz', 'quick', {'fill': 'nop', 'nblocks': 2, 'polarity': 0, 'first_edge': 0, 'use_start': True})
+        if 'error' not in tape:
+            check_tape(shard, hooks, tape, rng, 'w3', asan=True, only_groups=[('fl1', 'cmio0')])
+
+    elif k == 4:
+        # software-projects loop (samples BEFORE it counts down) entered with a counter of 0 after a time-out
+        rng = random.Random('C13/witness/deczero/15')
+        tape = make_custom(rng, 'software-projects', 'quick', {'init_ctr': False, 'nblocks': 1, 'polarity': 0, 'first_edge': 0, 'use_start': True})
+        if 'error' not in tape:
+            check_deczero(shard, hooks, tape)
+
+def check_deczero(shard, hooks, tape):
+    harness.write_file('tape.' + tape['ext'], tape['tape'])
+    C = lambda acc, py: {'acc': acc, 'dec_a': 3, 'pause': 1, 'python': py, 'fast_load': 1, 'cmio': 0}
+    ref_c = C('none', 0)
+    ref = run_cfg(hooks, tape, ref_c, 'z80')
+    shard.inc('monitor:tap2sna_runs')
+    if ref.get('watchdog') or not ref['loaded']:
+        shard.skip('witness tape for the countdown accelerator does not load unaccelerated')
+        return
+    for c, child in ((C(tape['named'], 1), False), (C(tape['named'], 0), True)):
+        res = run_cfg_child(tape, c, 'z80') if child else run_cfg(hooks, tape, c, 'z80')
+        shard.inc('monitor:tap2sna_runs')
+        if res.get('watchdog'):
+            shard.note_inconclusive('wall-clock watchdog fired on the countdown-accelerator witness')
+            continue
+        shard.inc('monitor:inclass_comparisons')
+        shard.case(('deczero', cfg_key(c)), True)
+        if 'crashed' in res:
+            shard.violation('custom tape (%s): [%s] kills the interpreter (exit status %s) while [%s] loads the tape: %s' % (
+                tape['desc'], describe_cfg(c), res['crashed'], describe_cfg(ref_c), res['stderr'][-300:]), replay_dict(tape, ref_c, c, ['crash']), F_DECZERO)
+            continue
+        d = state_diff(ref, res)
+        if d:
+            shard.violation('custom tape (%s): [%s] and [%s] end differently: %s' % (tape['desc'], describe_cfg(ref_c), describe_cfg(c), ', '.join(d[:8])),
+                            replay_dict(tape, ref_c, c, d[:8]), F_DECZERO)
+
+def one_tape(shard, hooks, kind, nm, key, asan, sample=False):
+    rng = shard.rng('tape', *key)
+    tape = make_custom(rng, nm, shard.tier) if kind == 'custom' else make_bin2tap(rng, shard.tier)
+    if 'error' in tape:
+        shard.violation('tape construction failed: %s' % tape['error'], {'key': list(key)})
+        return
+    if sample:
+        shard.sample(tape['desc'])
+    check_tape(shard, hooks, tape, rng, key, asan=asan)
 
 def run(shard, spec):
     hooks = Hooks()
     hooks.install()
     try:
         asan = bool(spec.get('asan'))
-        if spec['shard'] == 0 and not asan:
-            witnesses(shard, hooks)
         names = loader_order(shard.seed)
         n, of = spec['shard'], spec['of']
-        mine = [names[i] for i in range(n, len(names), of)]
         case = 0
-        # every loader shape once (shared out over the shards), a bin2tap tape after each, then random ones until the budget is used
-        queue = []
-        for nm in mine:
-            queue.append(('custom', nm))
-            if len(queue) % 3 == 1:
-                queue.append(('bin2tap', None))
-        limit = 12 if shard.tier == 'quick' else 400
-        while True:
-            if case < len(queue):
-                kind, nm = queue[case]
-            else:
-                rsel = shard.rng('select', n, case)
-                kind = 'custom' if rsel.random() < 0.8 else 'bin2tap'
-                nm = rsel.choice(names)
-            rng = shard.rng('tape', n, case)
-            tape = make_custom(rng, nm, shard.tier) if kind == 'custom' else make_bin2tap(rng, shard.tier)
-            if 'error' in tape:
-                shard.violation('tape construction failed: %s' % tape['error'], {'case': case, 'shard': n})
-            else:
-                if case < 2:
-                    shard.sample(tape['desc'])
-                check_tape(shard, hooks, tape, rng, (n, case), asan=asan)
+        if not asan:
+            if n < 5:
+                witness(shard, hooks, n)
+            # mandatory part (not subject to the soft budget): every loader shape once, shared out over the shards, and one bin2tap tape
+            for nm in names[n::of]:
+                one_tape(shard, hooks, 'custom', nm, (n, 'm', nm), asan, sample=case == 0)
+                case += 1
+            one_tape(shard, hooks, 'bin2tap', None, (n, 'm', 'bin2tap'), asan, sample=True)
+        # random tapes until the budget is used
+        limit = 40 if shard.tier == 'quick' else 600
+        while case < limit and not shard.out_of_time():
+            rsel = shard.rng('select', n, case)
+            kind = 'custom' if rsel.random() < 0.8 else 'bin2tap'
+            one_tape(shard, hooks, kind, rsel.choice(names), (n, 'r', case), asan)
             case += 1
-            if shard.out_of_time():
-                if case < len(queue):
-                    shard.inc('loader_shapes_not_reached_within_budget', len([q for q in queue[case:] if q[0] == 'custom']))
-                break
-            if case >= limit:
-                break
     finally:
         hooks.remove()
 
@@ -647,3 +746,9 @@ LEVEL_TEXT = ('Each generated tape (bin2tap-made tapes and synthesised custom lo
               'PC and SP.')
 LEVEL_NOTE = ('Tapes and Python-simulator configurations are sampled; accelerator=list hit counts in the evidence show which loop shapes had their fast-forward '
               'arithmetic executed. 128K machines and real-world tape images are not covered.')
+
+
+if __name__ == '__main__':
+    import sys
+    if len(sys.argv) >= 4 and sys.argv[1] == 'child':
+        sys.exit(child_main(sys.argv[2:]))
